@@ -32,6 +32,11 @@ def envelope_scripts(rng, tier):
         cases.append(("mki", dict(mki=msz)))
     for ws in (0, 1, 63, 64, 32767, 32768, 65536, 1 << 20):
         cases.append(("window", dict(window=ws)))
+    # accepted window sizes of every residue class modulo 32 and modulo 128 (the bit vector is allocated in 32-bit words rounded
+    # up to 16 octets): a size computation that is wrong for one class writes past the block at create time or on the first shift
+    for ws in ([65, 95, 96, 97, 127, 129, 130, 159, 160, 161, 255, 257, 287, 1000, 1023, 1025, 32766] if tier == "quick" else
+               list(range(64, 420)) + [1000, 1023, 1025, 4095, 4097, 32766]):
+        cases.append(("window", dict(window=ws)))
     for name, kw in cases:
         ssrc = rng.randrange(2, 1 << 32)
         klen = max(kw.get("rtp", cp())[1], kw.get("rtcp", cp())[1], 30)
